@@ -418,11 +418,25 @@ def _self_writes(fn):
     return out
 
 
+def _self_calls(fn):
+    return {n.func.attr for n in ast.walk(fn) if isinstance(n, ast.Call) and isinstance(n.func, ast.Attribute) and isinstance(n.func.value, ast.Name) and n.func.value.id == "self"}
+
+
+def _plain_reads(fn):
+    """self attributes whose VALUE is read (not merely the receiver of an in-place reset such as self.x.clear())"""
+    skip = set()
+    for n in ast.walk(fn):
+        if isinstance(n, ast.Call) and isinstance(n.func, ast.Attribute) and n.func.attr in ("clear", "pop", "popitem", "discard") and isinstance(n.func.value, ast.Attribute):
+            skip.add(id(n.func.value))
+    return {n.attr for n in ast.walk(fn) if isinstance(n, ast.Attribute) and isinstance(n.value, ast.Name) and n.value.id == "self" and isinstance(n.ctx, ast.Load) and id(n) not in skip}
+
+
 def _r6(ctx, pkg):
     """A view of the network (species, elements, grains, ...) is recomputed from the live caches on every read, or -- if it
-    memoises -- every writer of anything it is computed from resets the memo."""
+    memoises -- every public way of changing anything it is computed from resets the memo.  The same for any other method that keeps
+    a memo of its own (an attribute it reads before it writes it and nobody else reads): find_duplicate_reaction's key lists, ..."""
     ci = pkg.cls("Network")
-    getters, others = {}, {}
+    getters, others, allm = {}, {}, {}
     for fn in ci.node.body:
         if not isinstance(fn, ast.FunctionDef):
             continue
@@ -431,47 +445,118 @@ def _r6(ctx, pkg):
             getters[fn.name] = fn
         else:
             others.setdefault(fn.name + ("@setter" if any(d.endswith(".setter") for d in decs) else ""), fn)
+    plain = {fn.name: fn for k, fn in others.items() if not k.endswith("@setter")}       # callable as self.name(..)
+
+    def closure(fn, what):
+        """attributes `what`(f) yields for fn and every method / getter of the class it reaches through self"""
+        out, todo, seen = {}, [fn], set()
+        while todo:
+            g = todo.pop()
+            if id(g) in seen:
+                continue
+            seen.add(id(g))
+            for a, ln in what(g).items():
+                out.setdefault(a, ln)
+            for c in _self_calls(g):
+                if c in plain:
+                    todo.append(plain[c])
+            for a in _self_reads(g):
+                if a in getters:
+                    todo.append(getters[a])
+        return out
+    reads_of = lambda g: {a: 0 for a in _self_reads(g)}
+
+    def sure_writes(fn, depth=0):
+        """attributes written on EVERY call: by a top-level statement of the method, or by a method it calls in a top-level statement
+        (a reset inside a loop or a branch -- or done by a callee only on some path -- may not happen)"""
+        out = set()
+        for st in fn.body:
+            if isinstance(st, (ast.If, ast.For, ast.While, ast.Try, ast.With, ast.FunctionDef)):
+                if isinstance(st, ast.If) and st.orelse:
+                    a = set.intersection(*[set().union(*[sure_writes_stmt(x, depth) for x in blk]) if blk else set() for blk in (st.body, st.orelse)])
+                    out |= a
+                continue
+            out |= sure_writes_stmt(st, depth)
+        return out
+
+    def sure_writes_stmt(st, depth):
+        out = set()
+        if isinstance(st, (ast.If, ast.For, ast.While, ast.Try, ast.With, ast.FunctionDef, ast.Return, ast.Raise)) and not isinstance(st, (ast.Return,)):
+            return out
+        holder = ast.Module(body=[st], type_ignores=[])
+        out |= set(_self_writes(holder))
+        if depth < 4:
+            for c in _self_calls(holder):
+                if c in plain:
+                    out |= sure_writes(plain[c], depth + 1)
+        return out
     n = 0
-    for name, fn in sorted(getters.items()):
-        n += 1
+    cands = [(name, fn, True) for name, fn in sorted(getters.items())] + [(k, fn, False) for k, fn in sorted(others.items()) if k != "__init__"]
+    for name, fn, is_view in cands:
         decs = [ast.unparse(d) for d in fn.decorator_list]
-        key = f"Network.{name}:view is live"
+        key = f"Network.{name}:view is live" if is_view else f"Network.{name}:memo is fresh"
+        if is_view:
+            n += 1
         if any("cache" in d for d in decs):
-            ctx.bad("R6", key, (NF, fn.lineno), f"the view is memoised by decorator ({decs}) and can never follow an edit of the network", found=", ".join(decs))
+            ctx.bad("R6", key, (NF, fn.lineno), f"the result is memoised by decorator ({decs}) and can never follow an edit of the network", found=", ".join(decs))
             continue
-        # a memo is an attribute the getter reads BEFORE (re)computing it; store-then-return recomputes on every read
+        # a memo is an attribute the method reads BEFORE (re)computing it; store-then-return recomputes on every read
         first_load = {}
         for x in ast.walk(fn):
             if isinstance(x, ast.Attribute) and isinstance(x.value, ast.Name) and x.value.id == "self" and isinstance(x.ctx, ast.Load):
                 first_load[x.attr] = min(first_load.get(x.attr, x.lineno), x.lineno)
         memo = {a: ln for a, ln in _self_writes(fn).items() if a in first_load and first_load[a] < ln}
+        # ... that nobody else reads (state such as reaction_list, which a setter reads and then replaces, is not a memo)
+        memo = {a: ln for a, ln in memo.items() if not any(a in _plain_reads(g) for g in list(getters.values()) + list(others.values()) if g is not fn)}
         if not memo:
-            ctx.ok("R6", key, (NF, fn.lineno), "recomputed on every read (the getter keeps nothing in the instance)")
+            if is_view:
+                ctx.ok("R6", key, (NF, fn.lineno), "recomputed on every read (the getter keeps nothing in the instance)")
             continue
-        # inputs: self attributes read (through other getters too), apart from the memo itself
-        inputs, todo, seen = set(), [fn], set()
-        while todo:
-            g = todo.pop()
-            for a in _self_reads(g):
-                if a in memo or a in seen:
-                    continue
-                seen.add(a)
-                if a in getters:
-                    todo.append(getters[a])
-                elif a.startswith("_") or a == "reaction_list":
-                    inputs.add(a)
+        # inputs: self attributes read (through the getters and helper methods it calls), apart from the memo itself
+        inputs = {a for a in closure(fn, reads_of) if a not in memo and a not in getters and (a.startswith("_") or a == "reaction_list")}
         missing = []
         for oname, ofn in sorted(others.items()):
-            if oname == "__init__":
-                continue
-            w = _self_writes(ofn)
-            hit = sorted(a for a in w if a in inputs)
-            if hit and not all(m in w for m in memo):
-                missing.append((oname, hit, w[hit[0]]))
+            if oname == "__init__" or ofn is fn or oname.startswith("_"):
+                continue                    # private helpers are judged through the public methods that call them
+            # every DIRECT write of an input, in this method or in a helper it calls, is accompanied on its own path by a reset of the
+            # memo: a reset in the same block or an enclosing one -- of the helper, or of the caller around the call
+            def check_fn(g, anc, depth, stack):
+                def blocks(stmts, anc_):
+                    here = set()
+                    for st in stmts:
+                        if not isinstance(st, (ast.If, ast.For, ast.While, ast.Try, ast.With, ast.FunctionDef)):
+                            here |= sure_writes_stmt(st, 0)
+                    resets = anc_ | here
+                    for st in stmts:
+                        if isinstance(st, ast.FunctionDef):
+                            continue
+                        if isinstance(st, (ast.If, ast.For, ast.While, ast.Try, ast.With)):
+                            for fld in ("body", "orelse", "finalbody"):
+                                b = getattr(st, fld, None)
+                                if b:
+                                    yield from blocks(b, resets)
+                            for h in getattr(st, "handlers", []):
+                                yield from blocks(h.body, resets)
+                            # calls in the header expressions (loop iterable, test) are rare for mutators: ignored
+                            continue
+                        holder = ast.Module(body=[st], type_ignores=[])
+                        w_ = _self_writes(holder)
+                        hit_ = sorted(a for a in w_ if a in inputs)
+                        if hit_ and not all(m in resets for m in memo):
+                            yield (hit_, st.lineno, g.name)
+                        if depth < 4:
+                            for c in _self_calls(holder):
+                                if c in plain and plain[c] not in stack:
+                                    yield from check_fn(plain[c], resets, depth + 1, stack + [plain[c]])
+                yield from blocks(g.body, anc)
+            bad_ = list(check_fn(ofn, set(), 0, [ofn]))
+            if bad_:
+                hit_, ln_, gname = bad_[0]
+                missing.append((oname if gname == ofn.name else f"{oname} (through {gname})", hit_, ln_))
         for oname, hit, ln in missing:
             ctx.bad("R6", f"{key}:reset in {oname}", (NF, ln), f"Network.{name} memoises its result in self.{sorted(memo)[0]}, which is computed from {sorted(inputs)}; "
-                    f"`{oname}` changes {hit} without resetting the memo: the view (and everything rendered from it) is stale after that edit",
-                    expected=f"self.{sorted(memo)[0]} = None in every writer of {sorted(inputs)}", found=f"{oname} writes {hit}")
+                    f"`{oname}` changes {hit} without resetting the memo: the result (and everything rendered or decided from it) is stale after that edit",
+                    expected=f"self.{sorted(memo)[0]} reset in every public method that changes {sorted(inputs)}", found=f"{oname} writes {hit}")
         if not missing:
             ctx.ok("R6", key, (NF, fn.lineno), f"memo {sorted(memo)} is reset by every writer of {sorted(inputs)}")
     ctx.floor("R6", "views of Network", n, 15)
